@@ -12,14 +12,25 @@ open TdModel
 
 /-! ## Facts regenerated from /repo/tgerr and /repo/ascii -/
 
-/-- The separator is `_` for both Split and Join, at least two parts are needed, the two flood-wait
-types are `FLOOD_WAIT` and `FLOOD_PREMIUM_WAIT`, the unit is one second and the margin one second. -/
+/-- The separator is `_` for both Split and Join, the two flood-wait types are `FLOOD_WAIT` and
+`FLOOD_PREMIUM_WAIT`, and `FloodWaitErrors` lists exactly these two. -/
 theorem facts_tgerr :
-    Facts.C40.sepByte = 95 ∧ Facts.C40.minParts = 2 ∧
+    Facts.C40.sepByte = 95 ∧
     Facts.C40.errFloodWait = [70, 76, 79, 79, 68, 95, 87, 65, 73, 84] ∧
     Facts.C40.errPremiumFloodWait = [70, 76, 79, 79, 68, 95, 80, 82, 69, 77, 73, 85, 77, 95, 87, 65, 73, 84] ∧
-    Facts.C40.floodWaitErrors = [Facts.C40.errFloodWait, Facts.C40.errPremiumFloodWait] ∧
-    Facts.C40.secondNs = 1000000000 ∧ Facts.C40.marginNs = 1000000000 := by decide
+    Facts.C40.floodWaitErrors = [Facts.C40.errFloodWait, Facts.C40.errPremiumFloodWait] := by decide
+
+/-- The expressions *translated from the source* that the model computes with: the `len(parts)`
+guard of `extractArgument` fires below 2 parts; `AsFloodWait`'s duration is one second (10⁹ ns) per
+unit of the argument; `FloodWait` adds a one-second margin to it. -/
+theorem facts_translated :
+    (∀ n : Int, Facts.C40.tooFewParts n = true ↔ n < 2) ∧
+    (∀ a : Int, Facts.C40.floodDuration a = a * 1000000000) ∧
+    (∀ d : Int, Facts.C40.floodTimerArg d = d + 1000000000) := by
+  refine ⟨?_, ?_, ?_⟩
+  · intro n; simp [Facts.C40.tooFewParts]
+  · intro a; rw [floodDuration_eq]; omega
+  · intro d; exact floodTimerArg_eq d
 
 /-- The translated `ascii.IsDigit` accepts exactly the bytes '0'..'9'. -/
 theorem facts_isDigit (c : UInt8) : isDigit c = true ↔ 48 ≤ c.toNat ∧ c.toNat ≤ 57 := isDigit_iff c
@@ -144,16 +155,13 @@ theorem floodWait_duration (n : Nat) (hn : n ≤ 9223372035) (ty : Bytes)
   have h1 : asFloodWait ⟨ty, n⟩ = some ((n : Int) * 1000000000) := by
     unfold asFloodWait
     simp only [hc, if_true]
-    have e : ((Facts.C40.secondNs : Nat) : Int) = 1000000000 := by simp [Facts.C40.secondNs]
-    simp only [e]
-    rw [wrap64_id _ (by omega)]
+    rw [floodDuration_eq, wrap64_id _ (by omega)]
     have : (1000000000 : Int) * (n : Int) = (n : Int) * 1000000000 := by omega
     rw [this]
   have h2 : floodTimer ⟨ty, n⟩ = some (((n : Int) + 1) * 1000000000) := by
     unfold floodTimer
     rw [h1]
-    have e : ((Facts.C40.marginNs : Nat) : Int) = 1000000000 := by simp [Facts.C40.marginNs]
-    simp only [e]
+    simp only [floodTimerArg_eq]
     rw [wrap64_id _ (by omega)]
     have : (n : Int) * 1000000000 + 1000000000 = ((n : Int) + 1) * 1000000000 := by omega
     rw [this]
@@ -193,6 +201,73 @@ theorem floodWait_other_type (e : Parsed)
   rw [hc]
   rfl
 
+/-- The representable range is sharp: from n = 9 223 372 036 on, (n + 1) s does not fit
+`time.Duration` (int64 nanoseconds) and what the code hands to the clock is *not* (n + 1) s —
+the product wraps around.  (Observation about the code, outside the property's quantifier: the
+server never sends such arguments.) -/
+theorem floodWait_overflow_range (n : Nat) (hn : 9223372036 ≤ n) (ty : Bytes) :
+    floodTimer ⟨ty, n⟩ ≠ some (((n : Int) + 1) * 1000000000) := by
+  unfold floodTimer
+  cases asFloodWait ⟨ty, n⟩ with
+  | none => simp
+  | some d =>
+    simp only
+    intro h
+    injection h with h
+    have := (wrap64_range (Facts.C40.floodTimerArg d)).2
+    rw [h] at this
+    omega
+
+/-- `FloodWait`'s `select` with both channels possibly ready: the call reports `true` only if the
+timer fired, the context error only if the context is done, blocks iff neither is ready, and when
+both are ready either result is possible. -/
+theorem floodWait_select (e : Parsed) (d : Int) (hf : floodTimer e = some d) (t c : Bool) :
+    (WaitResult.waited ∈ floodWaitOutcomes e t c ↔ t = true) ∧
+    (WaitResult.cancelled ∈ floodWaitOutcomes e t c ↔ c = true) ∧
+    (floodWaitOutcomes e t c = [] ↔ (t = false ∧ c = false)) ∧
+    WaitResult.notFlood ∉ floodWaitOutcomes e t c := by
+  unfold floodWaitOutcomes
+  rw [hf]
+  cases t <;> cases c <;> simp
+
+/-- A non-flood error never waits, whatever is ready. -/
+theorem floodWait_select_other (e : Parsed) (hf : floodTimer e = none) (t c : Bool) :
+    floodWaitOutcomes e t c = [.notFlood] := by
+  unfold floodWaitOutcomes; rw [hf]
+
+/-! ## Matching helpers (`As`, `AsType`, `Is`, `IsCode`) -/
+
+/-- `Is` / `IsOneOf` / `IsCode` / `AsType` decide by the parsed Type (resp. Code) of the first
+`*Error` of the chain; with no `*Error` in the chain (or a nil error) they are false / none. -/
+theorem matching_spec (e : RpcErr) (t : Bytes) (tt : List Bytes) (codes : List Int) :
+    (isOneOf (some e) tt = true ↔ e.type ∈ tt) ∧ isOneOf none tt = false ∧
+    (isCode (some e) codes = true ↔ e.code ∈ codes) ∧ isCode none codes = false ∧
+    (asType (some e) t = some e ↔ e.type = t) ∧ (asType (some e) t = none ↔ e.type ≠ t) ∧
+    asType none t = none ∧ asErr (some e) = some e := by
+  refine ⟨?_, rfl, ?_, rfl, ?_, ?_, rfl, rfl⟩
+  · simp only [isOneOf, List.any_eq_true, decide_eq_true_eq]
+    constructor
+    · rintro ⟨x, hx, rfl⟩; exact hx
+    · intro h; exact ⟨_, h, rfl⟩
+  · simp only [isCode, List.any_eq_true, decide_eq_true_eq]
+    constructor
+    · rintro ⟨x, hx, rfl⟩; exact hx
+    · intro h; exact ⟨_, h, rfl⟩
+  · unfold asType; split <;> simp_all
+  · unfold asType; split <;> simp_all
+
+/-- End to end: an error built by `New` from a specification message matches exactly its Type
+(the message without the numeric part), and `AsFloodWait` on a chain agrees with the parsed fields. -/
+theorem matching_of_new (code : Int) (words : List Bytes) (n k : Nat) (hne : words ≠ [])
+    (hsep : ∀ w ∈ words, ∀ c ∈ w, c ≠ 95)
+    (hnd : ∀ w ∈ words, ∃ c ∈ w, ¬ (48 ≤ c.toNat ∧ c.toNat ≤ 57)) (hn : n < 2 ^ 63) (t : Bytes) :
+    let e := newErr code (joinUs (insertAt k (decimal n) words))
+    e.type = joinUs words ∧ e.arg = n ∧ e.code = code ∧
+    (isOneOf (some e) [t] = true ↔ joinUs words = t) ∧
+    asFloodWaitErr (some e) = asFloodWait ⟨joinUs words, n⟩ := by
+  have hp := parse_spec_decimal words n k hne hsep hnd hn
+  simp [newErr, hp, isOneOf, asFloodWaitErr]
+
 /-! ## Non-vacuity -/
 
 -- "FLOOD_WAIT_3" → (FLOOD_WAIT, 3), timer 4 s
@@ -203,6 +278,10 @@ example : joinUs (insertAt 2 [50] [[70, 73, 76, 69], [77, 73, 71, 82, 65, 84, 69
     = [70, 73, 76, 69, 95, 77, 73, 71, 82, 65, 84, 69, 95, 50] := by decide
 -- "2FA_CONFIRM_WAIT_5": a word with a digit is kept
 example : parse [50, 70, 65, 95, 67, 95, 53] = ⟨[50, 70, 65, 95, 67], 5⟩ := by decide
+-- New(420, "FLOOD_WAIT_3") is a FLOOD_WAIT, not a FLOOD_PREMIUM_WAIT; Error() text
+example : isOneOf (some (newErr 420 [70, 76, 79, 79, 68, 95, 87, 65, 73, 84, 95, 51])) [Facts.C40.errFloodWait] = true := by decide
+example : isOneOf (some (newErr 420 [70, 76, 79, 79, 68, 95, 87, 65, 73, 84, 95, 51])) [Facts.C40.errPremiumFloodWait] = false := by decide
+example : floodWaitOutcomes ⟨Facts.C40.errFloodWait, 3⟩ true true = [.waited, .cancelled] := by decide
 -- an empty part stops the scan: Type stays the whole message ("A__5")
 example : parse [65, 95, 95, 53] = ⟨[65, 95, 95, 53], 0⟩ := by decide
 
